@@ -53,6 +53,13 @@ EXPLANATION = (
     'of rows, attribute-style observers are plain properties; (D7) rectangular fast path of the constructor is '
     'rows x row-length and guarded by the equal-lengths test, (row, column) '
     'pairs are enumerated row-major. '
+    'Added after the bug hunt: (D2) a helper that hands `slice.indices(length)` whole to range()/arange() is '
+    'complete by the slice protocol (the length must be the number of rows / the length of the row); a hand-written '
+    'row-slice expansion must limit the stop to the length and re-test the start after adding the length; (D4/D5) '
+    'index arrays (row ids, columns, mask positions) are not dtype-less conversions of python sequences (float64 when '
+    'the selection is empty); (D7) the rectangular fast path keeps the element dimensions of the flat data '
+    '(... + self._data.shape[1:]); the row container is not built by np.array(<rows>, dtype=object), whose rank '
+    'depends on whether the rows happen to be equally long. '
     'Equality with the list-of-rows model for every index expression is not '
     'decided.')
 
@@ -593,12 +600,93 @@ def _is_negative_test(c, var):
     return (k == 0 and less[1]) or (k == -1 and not less[1])
 
 
+def _indices_delegation(mod, fn, fi, slice_param):
+    """Uses of the slice protocol: calls `<slice parameter>.indices(<length>)`
+    whose (start, stop, step) result is handed whole to range()/np.arange()
+    (`range(*sl.indices(n))`, or `a, b, c = sl.indices(n)` followed by
+    range(a, b, c)).  -> [(call, length argument, consumer call or None)]"""
+    out = []
+    for c in calls_in(fn):
+        if not (isinstance(c.func, ast.Attribute) and c.func.attr == 'indices' and len(c.args) == 1 and not c.keywords):
+            continue
+        recv = c.func.value
+        if not (isinstance(recv, ast.Name) and recv.id == slice_param):
+            continue
+        try:
+            if fi.defs_of_use(recv) != {'PARAM'}:
+                continue
+        except Exception:
+            continue
+        consumer = None
+        par = mod.parent.get(c)
+        if isinstance(par, ast.Starred):
+            gp = mod.parent.get(par)
+            if isinstance(gp, ast.Call) and call_name(gp) in ('range', 'np.arange') and len(gp.args) == 1 and gp.args[0] is par and not gp.keywords:
+                consumer = gp
+        elif isinstance(par, ast.Assign) and par.value is c and len(par.targets) == 1 and isinstance(par.targets[0], (ast.Tuple, ast.List)) \
+                and len(par.targets[0].elts) == 3 and all(isinstance(e, ast.Name) for e in par.targets[0].elts):
+            names = [e.id for e in par.targets[0].elts]
+            for g in calls_in(fn):
+                if call_name(g) in ('range', 'np.arange') and len(g.args) == 3 and not g.keywords and \
+                        [a.id if isinstance(a, ast.Name) else None for a in g.args] == names and \
+                        all(fi.defs_of_use(a) == {par} for a in g.args):
+                    consumer = g
+        out.append((c, c.args[0], consumer))
+    return out
+
+
+def _reads_slice_fields(fn, slice_param):
+    return [a for a in walk_local(fn) if isinstance(a, ast.Attribute) and a.attr in ('start', 'stop', 'step') and
+            isinstance(a.value, ast.Name) and a.value.id == slice_param]
+
+
 def d2_slices(ck, mod):
     rule = 'C05.D2.slice-bounds'
     for q in ('_slice_to_list', '_get_iis_from_slices'):
         fn = mod.func(q)
         ck.analysed(mod, fn)
         fi = finfo(mod, fn)
+        ps = params(fn)
+        # --- the slice protocol: slice.indices(length) returns start/stop/step with None, negative
+        # values and out-of-range bounds resolved against `length` exactly as python does for a list
+        sp = (ps[0] if q == '_slice_to_list' else (ps[1] if len(ps) > 1 else None))
+        dele = _indices_delegation(mod, fn, fi, sp) if sp else []
+        if dele and not _reads_slice_fields(fn, sp):
+            okd = True
+            for c, ln, consumer in dele:
+                if consumer is None:
+                    ck.missing(rule, '%s: result of %s is not handed whole to range()/np.arange()' % (q, u(c)[:80]))
+                    okd = False
+                    continue
+                if q == '_slice_to_list':
+                    L = ps[1] if len(ps) > 1 else None
+                    good = isinstance(ln, ast.Name) and ln.id == L and fi.defs_of_use(ln) == {'PARAM'}
+                    scope = set(ps)
+                else:
+                    L = ps[2] if len(ps) > 2 else None
+                    x = _xc(fi, ln)
+                    good = isinstance(x, ast.Subscript) and isinstance(x.value, ast.Name) and x.value.id == L and \
+                        not isinstance(x.slice, (ast.Slice, ast.Tuple))
+                    scope = _local_names(fn)
+                if good:
+                    continue
+                okd = False
+                closed = _pure(ln) and all(n.id in scope | _NEUTRAL for n in ast.walk(ln) if isinstance(n, ast.Name))
+                if closed:
+                    ck.bad(rule + '.length', mod, c, q, 'length handed to slice.indices: %s' % _xu(fi, ln)[:100],
+                           'the slice must be resolved against %s: with another length open, negative and out-of-range '
+                           'bounds select other elements than the list-of-rows model'
+                           % ('the number of rows (the `length` parameter)' if q == '_slice_to_list' else 'the length of the row it is applied to (lengths[row])'))
+                else:
+                    ck.missing(rule + '.length', '%s: length argument of %s not recognised' % (q, u(c)[:100]))
+            if okd:
+                how = 'resolved by the slice protocol (%s)' % u(dele[0][0])[:80]
+                for part in ('start', 'stop'):
+                    ck.ok(rule + '.none', mod, dele[0][0], '%s: omitted %s' % (q, part), how)
+                    ck.ok(rule + '.negative', mod, dele[0][0], '%s: negative %s' % (q, part), how)
+                ck.ok(rule + '.negative-step', mod, dele[0][0], '%s: negative step' % q, how)
+                ck.ok(rule + '.clip', mod, dele[0][0], '%s: bounds beyond the length' % q, how)
+            continue
         # variables holding the bounds
         bound = {}
         for s in walk_local(fn):
@@ -652,6 +740,45 @@ def d2_slices(ck, mod):
             ck.check(handled or rejects, rule + '.negative-step', mod, fn, q, 'negative step of the slice (variable `%s`)' % var,
                      'negative steps are handled or rejected',
                      '%s neither handles nor rejects a negative step: it is passed to arange/range with ascending bounds' % q)
+        # --- bounds beyond the length (row slices; the per-row stops of _get_iis_from_slices are the subject of D4.clip):
+        # a python list clips a[:10] / a[-10:] to the rows that exist.  Hand-written normalisation needs (a) an upper limit
+        # of the stop against the length and (b) a lower limit of the start AFTER the length was added to a negative start.
+        if q == '_slice_to_list' and len(ps) > 1:
+            L = ps[1]
+            sv, ev = bound.get('start'), bound.get('stop')
+            if ev is not None:
+                lim = False
+                for n in walk_local(fn):
+                    if isinstance(n, (ast.If, ast.IfExp)):
+                        for pol in (True, False):
+                            for c in conjuncts(n.test, pol) or []:
+                                if isinstance(c, Cmp) and {u(c.lhs), u(c.rhs)} == {ev, L} and c.op in (ast.Lt, ast.LtE, ast.Gt, ast.GtE):
+                                    lim = True
+                    if isinstance(n, ast.Call) and (call_name(n) or '') in ('min', 'np.minimum', 'np.clip', 'max', 'np.maximum') and \
+                            {ev, L} <= {x.id for a in n.args for x in ast.walk(a) if isinstance(x, ast.Name)}:
+                        lim = True
+                ck.check(lim, rule + '.clip', mod, fn, q, 'stop of the row slice beyond the number of rows (variable `%s`)' % ev,
+                         'a stop beyond the length is limited to the length',
+                         '%s hands a stop larger than the length unchanged to range(): a[:10, ...] on a 3-row array enumerates row '
+                         'numbers 3..9 (IndexError) where a list of rows clips the slice to the rows that exist' % q)
+            if sv is not None:
+                offs = [s_ for s_, t_, add in _increments(fn, sv) if L in names_loaded(add)]
+                if offs:
+                    relim = False
+                    for n in fi.cfg.nodes:
+                        if isinstance(n, Assume) and any(_is_negative_test(c, sv) for pol in (True, False) for c in (conjuncts(n.test, pol) or [])) \
+                                and any(fi.cfg.reachable(o, n) for o in offs):
+                            relim = True
+                    for n in walk_local(fn):
+                        if isinstance(n, ast.Call) and (call_name(n) or '') in ('max', 'np.maximum', 'np.clip') and \
+                                sv in {x.id for a in n.args for x in ast.walk(a) if isinstance(x, ast.Name)} and \
+                                any(fi.cfg.reachable(o, fi.stmt(n)) for o in offs if fi.stmt(n) is not None):
+                            relim = True
+                    ck.check(relim, rule + '.clip', mod, offs[0], q, 'start of the row slice still negative after the length was added (variable `%s`)' % sv,
+                             'a start below -length is limited to 0',
+                             '%s adds the length to a negative start and never looks at the result again: for a[-10:, ...] on a 3-row '
+                             'array range() starts at -7 and the negative row numbers wrap around a second time (duplicated / wrong rows) '
+                             'where a list of rows clips the slice' % q)
 
 
 # ---------------------------------------------------------------------------
@@ -1174,6 +1301,83 @@ def _loop_vars(fi, target, it, rows, persel, gen):
     return out
 
 
+def _list_valued(e):
+    """The (expanded) expression evaluates to a Python sequence whose length
+    depends on the data - a comprehension, list(...)/tuple(...)/sorted(...),
+    an empty display, `[x] * n` - and not to an ndarray."""
+    if isinstance(e, ast.ListComp):
+        return True
+    if isinstance(e, (ast.List, ast.Tuple)):
+        return not e.elts
+    if isinstance(e, ast.Call) and call_name(e) in ('list', 'tuple', 'sorted') and not e.keywords:
+        return True
+    if isinstance(e, ast.BinOp) and isinstance(e.op, ast.Mult):
+        return any(isinstance(x, ast.List) for x in (e.left, e.right))
+    return False
+
+
+def _float_when_empty(fi, e):
+    """Why the index array `e` is float64 (not an integer array) when it
+    selects nothing, or None.  Decided from the constructor expression alone:
+      np.array(<python sequence>) / np.asarray(...) without an integer dtype:
+          numpy infers the dtype from the elements, and float64 from none;
+      np.concatenate([<python sequence> for ...]): every piece is converted
+          on its own, an empty piece is a float64 array (with dtype=int the
+          'same_kind' cast float64 -> int is refused: TypeError)."""
+    x = _xc(fi, e)
+    if isinstance(x, ast.Call) and call_name(x) in ('np.array', 'np.asarray', 'np.asanyarray') and x.args:
+        typed = any(k.arg == 'dtype' for k in x.keywords) or len(x.args) > 1
+        if not typed and _list_valued(x.args[0]):
+            return 'np.array(<python sequence>) takes its dtype from the elements; for an empty selection the sequence is [] and the array float64'
+    if isinstance(x, ast.Call) and isinstance(x.func, ast.Attribute) and x.func.attr == 'copy' and getattr(x, '_from_np_array', False) \
+            and isinstance(x.func.value, ast.Name):
+        # np.array(<name>) whose name could not be expanded: every definition a python sequence
+        try:
+            defs = fi.defs_of_use(e.func.value if isinstance(e, ast.Call) and isinstance(e.func, ast.Attribute) else x.func.value)
+        except Exception:
+            defs = set()
+        vals = [fi.def_value(d, x.func.value.id) for d in defs if d not in ('PARAM', 'UNBOUND')]
+        if defs and len(vals) == len(defs) and all(v is not None and _list_valued(canon(v)) for v in vals):
+            return 'np.array(<python sequence>) takes its dtype from the elements; for an empty selection the sequence is [] and the array float64'
+    if isinstance(x, ast.Call) and call_name(x) in ('np.concatenate', 'np.hstack') and x.args:
+        a = x.args[0]
+        pieces = []
+        if isinstance(a, (ast.ListComp, ast.GeneratorExp)):
+            pieces = [a.elt]
+        elif isinstance(a, (ast.List, ast.Tuple)):
+            pieces = list(a.elts)
+        if any(_list_valued(p_) for p_ in pieces):
+            return ('the pieces handed to np.concatenate are python sequences: a piece of length zero becomes a float64 array, so the '
+                    'result is float64 - or, with dtype=int, the cast float64 -> int is refused (TypeError, casting="same_kind")')
+    return None
+
+
+def d5_index_dtype(ck, mod):
+    """The (rows, columns) arrays returned by the flat -> 2-D conversion are
+    used as INDICES (lengths[rows], starts[rows] + columns): they must have an
+    integer dtype also when the mask selects nothing."""
+    rule = 'C05.D5.flat-to-2d.index-dtype'
+    F = '_convert_from_1d'
+    fn = mod.functions.get(F)
+    if fn is None:
+        ck.missing(rule, 'function %s' % F)
+        return
+    fi = finfo(mod, fn)
+    n = 0
+    for r in returns_of(fn):
+        if not (isinstance(r.value, ast.Tuple) and len(r.value.elts) == 2):
+            continue
+        for which, e in zip(('row', 'column'), r.value.elts):
+            n += 1
+            why = _float_when_empty(fi, e)
+            ck.check(why is None, rule, mod, r, F, '%s index array returned for a ragged mask' % which,
+                     'not a dtype-less conversion of a python sequence',
+                     'the %s indices of a ragged mask are built as %s: %s; a float array cannot index lengths/starts, so a mask without '
+                     'a True entry (a[a > 100], a[a < 0] = 0 on data without negatives) raises IndexError instead of selecting nothing'
+                     % (which, _xu(fi, e)[:120], why))
+    ck.floor(rule, n, 2, 'index arrays returned by _convert_from_1d')
+
+
 def d4_index_space(ck, mod):
     rule = 'C05.D4.index-space'
     F = '_get_iis_from_slices'
@@ -1187,7 +1391,7 @@ def d4_index_space(ck, mod):
     rows, sl, lengths = ps[:3]
     rowidx = _row_indexed(fn, lengths)
     persel = _per_selection(fn, fi, rows)
-    state = {'n': 0, 'rep': 0, 'stops': set(), 'loops': []}
+    state = {'n': 0, 'rep': 0, 'stops': set(), 'loops': [], 'protocol': []}
     # the sequence returned as the new lengths
     newlen = None
     for r in returns_of(fn):
@@ -1281,6 +1485,14 @@ def d4_index_space(ck, mod):
             e = _xc(fi, node.args[1])
             if isinstance(e, ast.Subscript) and isinstance(e.value, ast.Name) and e.value.id in rowidx:
                 state['stops'].add(e.value.id)
+        if isinstance(node, ast.Call) and call_name(node) in ('np.arange', 'range') and env and len(node.args) == 1 and \
+                isinstance(node.args[0], ast.Starred) and not node.keywords:
+            b = match('%s.indices(_A)' % sl, node.args[0].value)
+            if b is not None:
+                a = _xc(fi, b['_A'])
+                if isinstance(a, ast.Subscript) and isinstance(a.value, ast.Name) and a.value.id == lengths:
+                    k = rowid_of(a.slice, env)
+                    state['protocol'].append((node, k is not None and k[0] == 'rowid'))
         for ch in ast.iter_child_nodes(node):
             visit(ch, env)
 
@@ -1289,13 +1501,40 @@ def d4_index_space(ck, mod):
     ck.floor(rule, state['n'], 1, 'row-indexed subscripts in the expansion loop')
     if state['rep'] == 0:
         reps = [c for c in calls_in(fn) if call_name(c) == 'np.repeat' and len(c.args) == 2]
-        okr = [c for c in reps if _xu(fi, c.args[0]) == rows and _xu(fi, c.args[1]) in persel - {rows}]
+
+        def unwrapped(e):
+            x = _xc(fi, e)
+            inner = _strip_array(x)       # np.asarray(rows, dtype=int): the same row ids
+            return u(inner if inner is not None else x)
+        okr = [c for c in reps if unwrapped(c.args[0]) == rows and _xu(fi, c.args[1]) in persel - {rows}]
         if okr:
             ck.ok(rule + '.repeat', mod, okr[0], u(okr[0]), 'row ids repeated by the per-position column counts')
         else:
             ck.missing(rule + '.repeat', 'construction of the row ids of the selected elements (itertools.repeat(row id, column count)) not found')
 
+    # --- the row ids / column indices handed back are INDEX arrays: integer dtype also for empty per-row selections
+    nd = 0
+    for r in returns_of(fn):
+        if isinstance(r.value, ast.Tuple) and len(r.value.elts) == 2 and isinstance(r.value.elts[0], ast.Tuple) and len(r.value.elts[0].elts) == 2:
+            for which, e in zip(('row ids', 'column indices'), r.value.elts[0].elts):
+                nd += 1
+                why = _float_when_empty(fi, e)
+                ck.check(why is None, rule + '.dtype', mod, fi.stmt(e) or r, F, '%s of the selected elements' % which,
+                         'not a dtype-less conversion of python sequences',
+                         'the %s are built as %s: %s; a selected row that contributes no element (a[:, 2:] with a row of length 2, '
+                         'a[:, 1:] with a one-element row) therefore raises instead of giving an empty row' % (which, _xu(fi, e)[:140], why))
+    if nd == 0:
+        ck.missing(rule + '.dtype', 'return value ((row ids, column indices), new lengths) of %s' % F)
+
     # --- clip of the stops to the row lengths
+    if state['protocol'] and not state['stops']:
+        for node, isrow in state['protocol']:
+            if isrow:
+                ck.ok(rule + '.clip', mod, node, u(node)[:120], 'column range resolved by the slice protocol against the length of the same row '
+                      '(slice.indices clips the bounds to that length)')
+            else:
+                ck.missing(rule + '.clip', 'length handed to %s.indices is not recognised as the length of the selected row' % sl)
+        return
     stops = sorted(state['stops'] - {lengths})
     if len(stops) != 1:
         ck.missing(rule + '.clip', 'per-row stop array of the column ranges not recognised (%s)' % ', '.join(sorted(state['stops'])))
@@ -1346,9 +1585,20 @@ def _starts_forms(Lx):
             'np.insert(%s.cumsum()[:-1], 0, 0)' % Lx, 'np.insert(%s.cumsum(), 0, 0)[:-1]' % Lx]
 
 
+_INT_DTYPES = {'int', 'np.int64', 'np.intp', 'np.int_', 'np.int32', 'numpy.int64', 'numpy.intp', "'int'", "'int64'", "'intp'",
+               "'i8'", 'np.dtype(int)'}
+
+
+def _int_dtype_kw(call):
+    """The call carries dtype=<integer type> (and no other keyword)."""
+    return len(call.keywords) == 1 and call.keywords[0].arg == 'dtype' and u(call.keywords[0].value) in _INT_DTYPES
+
+
 def _strip_array(e):
-    """np.array(x) / np.asarray(x) / x.copy()  ->  x"""
-    if isinstance(e, ast.Call) and call_name(e) in ('np.array', 'np.asarray') and len(e.args) == 1 and not e.keywords:
+    """np.array(x) / np.asarray(x) / np.array(x, dtype=int) / x.copy()  ->  x
+    (index arrays: an explicit integer dtype does not change the values)"""
+    if isinstance(e, ast.Call) and call_name(e) in ('np.array', 'np.asarray') and len(e.args) == 1 and \
+            (not e.keywords or _int_dtype_kw(e)):
         return e.args[0]
     if isinstance(e, ast.Call) and isinstance(e.func, ast.Attribute) and e.func.attr == 'copy' and not e.args and not e.keywords:
         return e.func.value
@@ -1514,7 +1764,150 @@ def d5_where(ck, mod):
 # ---------------------------------------------------------------------------
 # D7
 
-def d7_constructor_and_lists(ck, mod):
+def _ndarray_by_construction(fi, e):
+    x = _xc(fi, e)
+    if isinstance(x, ast.Attribute) and x.attr == 'lengths':
+        return True          # the slot only ever holds np.array(...) (D3 of the write side)
+    return isinstance(x, ast.Call) and (call_name(x) in _NDARRAY_MAKERS or getattr(x, '_from_np_array', False))
+
+
+def row_container(ck, mod, rule, quals):
+    """The row container `self._array` must hold ONE ROW VIEW PER SLOT whatever
+    the row lengths are.  `np.array(<list of row arrays>, dtype=object)` does not
+    guarantee that: numpy chooses the rank of the result from the run-time
+    shapes of the items, and for items of EQUAL shape it builds an
+    (n_rows, L, ...) array of python scalars - element-wise copies, dtype
+    object - instead of a 1-D array of n_rows views.  Every store of that form
+    into the container is reported unless it sits under a test that the
+    lengths are NOT all equal whose operand is an ndarray by construction (for
+    a python list `lengths == lengths[0]` is a single False).  Accepted:
+    slot-wise filling of np.empty(n, dtype=object), reshape views."""
+    total = 0
+    for q in quals:
+        fn = mod.functions.get(q)
+        if fn is None:
+            ck.missing(rule, 'function %s' % q)
+            continue
+        fi = finfo(mod, fn)
+        ps = params(fn)
+        if not ps:
+            continue
+        ARR = '%s._array' % ps[0]
+        for s in walk_local(fn):
+            if not (isinstance(s, ast.Assign) and any(u(t) == ARR for t in s.targets)):
+                continue
+            total += 1
+            v = _xc(fi, s.value)
+            objarr = isinstance(v, ast.Call) and call_name(v) in ('np.array', 'np.asarray') and v.args and \
+                any(k.arg == 'dtype' and u(k.value) in ("'O'", 'object', "'object'", 'np.object_') for k in v.keywords)
+            if not objarr:
+                ck.ok(rule, mod, s, '%s: %s' % (q, u(s)[:100]), 'not an np.array(<sequence of rows>, dtype=object) conversion')
+                continue
+            inner = v.args[0]
+            if isinstance(inner, ast.Name):
+                # a named sequence of rows (`row_views = partition_list(...)`): WHICH expression the name stands for -
+                # the helper call is not a pure temporary, so the expansion above left the name alone
+                raw = s.value
+                for _ in range(4):
+                    if isinstance(raw, ast.Name):
+                        raw = fi.resolve(raw)
+                    else:
+                        break
+                if isinstance(raw, ast.Call) and raw.args and isinstance(raw.args[0], ast.Name):
+                    try:
+                        inner = canon(fi.resolve(raw.args[0]))
+                    except Exception:
+                        pass
+            rows_seq = (isinstance(inner, ast.Call) and (call_name(inner) or '').split('.')[-1] == 'partition_list') or _list_valued(inner) \
+                or isinstance(inner, ast.List)
+            if not rows_seq:
+                ck.missing(rule, '%s: items of the object-array conversion not recognised: %s' % (q, u(inner)[:100]))
+                continue
+            # a sound "rows are not all equally long" guard
+            guarded = False
+            for a, node in _atoms(_path_conditions(mod, s, fn)):
+                e = _atom_expr(a)
+                for lx in {n_.id for n_ in ast.walk(e) if isinstance(n_, ast.Name)} | {'%s.lengths' % ps[0]}:
+                    pats = ['not (%s == %s[0]).all()' % (lx, lx), '(%s != %s[0]).any()' % (lx, lx), '(%s - %s[0]).any()' % (lx, lx),
+                            'len(set(%s)) != 1' % lx, '1 < len(set(%s))' % lx, 'len(np.unique(%s)) != 1' % lx, '1 < len(np.unique(%s))' % lx]
+                    if any(match(p_, canon(e)) is not None for p_ in pats):
+                        operand = [n_ for n_ in ast.walk(e) if u(n_) == lx]
+                        if operand and _ndarray_by_construction(fi, operand[0]):
+                            guarded = True
+            if guarded:
+                ck.ok(rule, mod, s, '%s: %s' % (q, u(s)[:100]), 'reached only with rows of unequal length (elementwise test on an ndarray)')
+                continue
+            ck.bad(rule, mod, s, q, 'row container built by np.array(<sequence of row arrays>, dtype=object)',
+                   'numpy takes the rank of np.array(<rows>, dtype=object) from the run-time shapes: when all rows have the same length '
+                   '(also: a single row) the result is an (n_rows, L) matrix of python objects - copies, dtype object - not a 1-D array '
+                   'of row views.  Reads then return object rows detached from the flat data (a[0].dtype is object, a[0:2] / a[[0]] turn '
+                   'the whole array into dtype object, a[i][j] = v is not seen by a[i, j]) and writers that re-run the constructor on the '
+                   'container decay the flat data to dtype object.  A test `lengths == lengths[0]` on the caller\'s list does not '
+                   'protect the store (list == int is one False).  The container must be filled slot by slot '
+                   '(np.empty(n, dtype=object); c[i] = row)')
+    return total
+
+
+def _trailing_shape(v, DATA):
+    """reshape arguments of `<DATA>.reshape(...)`: (leading shape entries, element dimensions kept?)"""
+    args = list(v.args)
+    trailing = False
+    if len(args) == 1 and isinstance(args[0], ast.BinOp) and isinstance(args[0].op, ast.Add) and \
+            isinstance(args[0].left, (ast.Tuple, ast.List)) and any(
+                match(f, args[0].right) is not None for f in ('%s.shape[1:]' % DATA, 'tuple(%s.shape[1:])' % DATA, '%s.shape[1:None]' % DATA)):
+        trailing = True
+        args = [args[0].left]
+    if len(args) == 1 and isinstance(args[0], (ast.Tuple, ast.List)):
+        args = list(args[0].elts)
+    return args, trailing
+
+
+def trailing_dims(ck, mod, rule):
+    """The flat data may carry the dimensions of one element behind the ragged
+    axis (frames x atoms x 3, rows of feature vectors: shape, size,
+    partition_list and ra.load all provide for it).  A rectangular row view
+    `self._data.reshape(rows, L)` with a two-entry target shape re-cuts those
+    dimensions as if they were row entries; the target shape must end in
+    `self._data.shape[1:]`.  Exempt: the single-row view of a sequence of
+    scalars (one-dimensional by the branch it sits in: `not
+    _is_iterable(array[0])`)."""
+    q = CLS + '.__init__'
+    fn = mod.functions.get(q)
+    if fn is None:
+        ck.missing(rule, 'constructor %s' % q)
+        return 0
+    fi = finfo(mod, fn)
+    selfn = params(fn)[0]
+    DATA, ARR, SL = '%s._data' % selfn, '%s._array' % selfn, '%s.lengths' % selfn
+    n = 0
+    for s in walk_local(fn):
+        if not (isinstance(s, ast.Assign) and any(u(t) == ARR for t in s.targets)):
+            continue
+        v = _xc(fi, s.value)
+        if not (isinstance(v, ast.Call) and isinstance(v.func, ast.Attribute) and v.func.attr == 'reshape' and u(v.func.value) == DATA):
+            continue
+        n += 1
+        args, trailing = _trailing_shape(v, DATA)
+        scalars = False
+        for a, node in _atoms(_path_conditions(mod, s, fn)):
+            if not isinstance(a, Cmp) and a[2] is False and isinstance(a[1], ast.Call) and (call_name(a[1]) or '').split('.')[-1] == '_is_iterable' \
+                    and a[1].args and isinstance(a[1].args[0], ast.Subscript) and const_value(a[1].args[0].slice, 'x') == 0:
+                scalars = True
+        if len(args) != 2 and not trailing:
+            ck.missing(rule, 'target shape of the row view not recognised: %s' % u(v)[:100])
+            continue
+        ck.check(trailing or scalars, rule, mod, s, q, 'rectangular row view of the flat data (reshape of %s)' % DATA,
+                 'the dimensions of one element are carried over (... + self._data.shape[1:])' if trailing else
+                 'single row of scalars: the flat data is one-dimensional on this branch',
+                 'the equal-length fast path reshapes the flat data to exactly (rows, row length); for flat data of shape (N, d...) '
+                 '- multi-dimensional elements, e.g. RaggedArray(coords of shape (6, 3), lengths=np.array([2, 2, 2])) or ra.load of '
+                 'equally long trajectories of feature vectors - numpy re-cuts the N*d numbers into N*d/L rows of L scalars: len(), '
+                 'a[i], iteration, row slices and ra.save see the wrong number of rows with fragments of neighbouring frames. '
+                 'The target shape must keep the element dimensions: (rows, L) + self._data.shape[1:]')
+    return n
+
+
+def d7_constructor_and_lists(ck, mod, container=True):
     """Rectangular fast path of the constructor and the row x column product
     used for (rows, column-list) indices."""
     rule = 'C05.D7.row-major'
@@ -1537,9 +1930,7 @@ def d7_constructor_and_lists(ck, mod):
         if not (isinstance(v, ast.Call) and isinstance(v.func, ast.Attribute) and v.func.attr == 'reshape' and u(v.func.value) == DATA):
             continue
         n += 1
-        args = list(v.args)
-        if len(args) == 1 and isinstance(args[0], (ast.Tuple, ast.List)):
-            args = list(args[0].elts)
+        args, trailing = _trailing_shape(v, DATA)
         shape = ast.Tuple(elts=args, ctx=ast.Load())
         forms = []
         for lx in (LP, SL):
@@ -1581,6 +1972,9 @@ def d7_constructor_and_lists(ck, mod):
             else:
                 ck.bad(rule + '.reshape', mod, s, q, 'equal-length test', gwhy)
     ck.floor(rule + '.reshape', n, 2, 'reshape views in the constructor')
+    trailing_dims(ck, mod, rule + '.reshape.trailing-dims')
+    if container:
+        row_container(ck, mod, 'C05.D7.row-container', [q])
 
     F = '_get_iis_from_list'
     fl = mod.func(F)
@@ -1631,4 +2025,5 @@ def check(ck):
     d3_row_count(ck, mod)
     d4_index_space(ck, mod)
     d5_where(ck, mod)
+    d5_index_dtype(ck, mod)
     return EXPLANATION
